@@ -1,7 +1,7 @@
 (* C03, names, compressed path: ares_dns_name_write under the offset-list invariant of DESIGN.md A.4
    (fixed variant: offsets relative to the message, no targets beyond 16383). *)
 From CAres.Wire Require Import Cursor Cursor_proofs Name Name_proofs Record Escape Escape_proofs RefDecode Bits
-     Name_ref Ref_mono Write Write_name Split_tokens.
+     Name_ref Ref_mono Write Write_name Split_tokens Write_host.
 From CAres.Gen Require Import Consts LeafFns Tables.
 Local Open Scope Z_scope.
 
@@ -258,15 +258,16 @@ Qed.
 (* ares_dns_name_write with an offset list satisfying the invariant: the octets appended decode
    (at the position of the name, in the message [out ++ more], whatever follows) to the labels of
    the name, and the invariant holds for the new list *)
-Theorem name_write_compressed b pre out ol ls :
+Theorem name_write_compressed (v : bool) b pre out ol ls :
   wb_wf b -> w_live b = pre ++ out -> ol_ok out ol ->
   Forall label_ok ls -> wire_len ls <= 256 -> slen (escape_name ls) < 512 ->
-  forall b' nl', name_write wfixed (Z.of_nat (length pre)) b (Some ol) false (escape_name ls) = Ok (b', nl') ->
+  (v = true -> Forall host_label ls) ->
+  forall b' nl', name_write wfixed (Z.of_nat (length pre)) b (Some ol) v (escape_name ls) = Ok (b', nl') ->
   exists more ol', nl' = Some ol' /\ wb_wf b' /\ w_live b' = pre ++ out ++ more /\ ol_ok (out ++ more) ol' /\
     bytes_ok more /\
     forall post, ref_name (out ++ more ++ post) (length out) = Some (ls, (length out + length more)%nat).
 Proof.
-  intros Hwf Hlive Hol Hls Hw Ht b' nl' H.
+  intros Hwf Hlive Hol Hls Hw Ht Hv b' nl' H.
   set (name := escape_name ls) in *.
   assert (Hpos : wb_len b - Z.of_nat (length pre) = Z.of_nat (length out)).
   { rewrite (wb_len_live b Hwf), Hlive, app_length. lia. }
@@ -313,7 +314,8 @@ Proof.
       rewrite <- Hskip in Hsplitname.
       replace (Z.to_nat (slen name - (slen on + 1))) with (p - 1)%nat in H by (unfold p; lia).
       set (prefix := firstn (p - 1) name) in *.
-      destruct (split_dns_name false prefix) as [ps| |] eqn:Esp; cbn [bind] in H; try discriminate.
+      destruct (split_dns_name v prefix) as [ps| |] eqn:Esp0; cbn [bind] in H; try discriminate.
+      assert (Esp : split_dns_name false prefix = Ok ps) by (destruct v; [apply split_dns_name_true_false; exact Esp0 | exact Esp0]).
       assert (Hlabels : ls = ps ++ ms).
       { apply (suffix_labels ls ms prefix ps Hls Hms Hmne); [|exact Esp]. fold name. rewrite <- Hon. exact Hsplitname. }
       assert (Hps : Forall label_ok ps) by (rewrite Hlabels in Hls; apply Forall_app in Hls; exact (proj1 Hls)).
@@ -366,7 +368,7 @@ Proof.
         split; [unfold more; apply bytes_ok_app; [apply bytes_ok_enc; exact Hps | apply ptr_bytes_ok; exact Hidx] | exact Hdec].
   - (* no suffix registered: all labels and the terminating zero octet *)
     cbn [negb andb] in H.
-    pose proof (split_dns_name_canonical ls Hls Hw) as Hsp. fold name in Hsp. rewrite Hsp in H. cbn [bind] in H.
+    pose proof (split_dns_name_canonical_v v ls Hls Hw Hv) as Hsp. fold name in Hsp. rewrite Hsp in H. cbn [bind] in H.
     set (b1 := fold_left (fun b l => wb_append (wb_append_byte b (Z.land (slen l) 255)) l) ls b) in *.
     assert (Hb1 : w_live b1 = w_live b ++ enc_labels ls) by (apply emit_labels_live; exact Hls).
     assert (Hwf1 : wb_wf b1) by (apply wb_wf_emit; exact Hwf).
@@ -406,10 +408,11 @@ Qed.
 
 (* C03_name_roundtrip: write under the offset-list invariant, then parse (model of
    ares_dns_name_parse) at the position of the name inside the message, whatever follows *)
-Theorem name_roundtrip b pre out ol ls :
+Theorem name_roundtrip (v : bool) b pre out ol ls :
   wb_wf b -> w_live b = pre ++ out -> ol_ok out ol -> bytes_ok out ->
   Forall label_ok ls -> wire_len ls <= 256 -> slen (escape_name ls) < 512 ->
-  forall b' nl', name_write wfixed (Z.of_nat (length pre)) b (Some ol) false (escape_name ls) = Ok (b', nl') ->
+  (v = true -> Forall host_label ls) ->
+  forall b' nl', name_write wfixed (Z.of_nat (length pre)) b (Some ol) v (escape_name ls) = Ok (b', nl') ->
   exists more ol', nl' = Some ol' /\ wb_wf b' /\ w_live b' = pre ++ out ++ more /\ ol_ok (out ++ more) ol' /\
     bytes_ok (out ++ more) /\
     forall post fuel,
@@ -419,8 +422,8 @@ Theorem name_roundtrip b pre out ol ls :
       Z.of_nat (length msg) < 2 ^ 64 -> (name_fuel c <= fuel)%nat ->
       dns_name_parse fuel c true false = Ok (escape_name ls, set_off c (Z.of_nat (length out + length more))).
 Proof.
-  intros Hwf Hlive Hol Hbo Hls Hw Ht b' nl' H.
-  destruct (name_write_compressed b pre out ol ls Hwf Hlive Hol Hls Hw Ht b' nl' H)
+  intros Hwf Hlive Hol Hbo Hls Hw Ht Hv b' nl' H.
+  destruct (name_write_compressed v b pre out ol ls Hwf Hlive Hol Hls Hw Ht Hv b' nl' H)
     as (more & ol' & Hnl & Hwf' & Hlive' & Hol' & Hmb & Hdec).
   exists more, ol'. split; [exact Hnl|]. split; [exact Hwf'|]. split; [exact Hlive'|]. split; [exact Hol'|].
   split; [apply bytes_ok_app; assumption|].
